@@ -30,6 +30,8 @@ type c20Config struct {
 	RefuseANY bool   `json:"refuse_any"`
 	MaxAns    int    `json:"max_answer"`
 	IP        string `json:"listen_ip"`
+	IP2       string `json:"second_listen_ip,omitempty"` // a second address with its own max-answer
+	MaxAns2   int    `json:"second_max_answer,omitempty"`
 }
 
 type c20Exporter struct{}
@@ -97,6 +99,9 @@ func c20BigLines() []string {
 		l = append(l, fmt.Sprintf("&manyns.example.com,192.0.2.%d,ns%02d.manyns.example.com,300", 10+i, i))
 	}
 	l = append(l, "+single.example.com,192.0.2.7,300")
+	for i := 0; i < 6; i++ {
+		l = append(l, fmt.Sprintf("+wrr.example.com,192.0.2.%d,300", 100+i), fmt.Sprintf("+wrr.example.com,2001:db8::%d,300", 100+i))
+	}
 	return l
 }
 
@@ -176,6 +181,9 @@ func c20Worker(args []string) int {
 		port := freePort(cfg.IP)
 		conf := fbserver.NewServerConfig()
 		conf.IPAns[cfg.IP] = cfg.MaxAns
+		if cfg.IP2 != "" {
+			conf.IPAns[cfg.IP2] = cfg.MaxAns2
+		}
 		conf.Port = port
 		conf.TCP = true
 		conf.DBConfig.Driver = b.Driver
@@ -193,7 +201,11 @@ func c20Worker(args []string) int {
 			continue
 		}
 		ok := true
-		for i := 0; i < 2; i++ {
+		nlisten := 2
+		if cfg.IP2 != "" {
+			nlisten = 4
+		}
+		for i := 0; i < nlisten; i++ {
 			select {
 			case <-up:
 			case <-time.After(10 * time.Second):
@@ -300,6 +312,37 @@ func c20Worker(args []string) int {
 			sum.Samples = append(sum.Samples, fmt.Sprintf("tcp=%v %s", tcp, oneLine(q)))
 		}
 	}
+	// every listener applies its own max-answer: a name with 6 A and 6 AAAA candidates asked on each address
+	type lst struct {
+		ip  string
+		max int
+	}
+	listeners := []lst{{cfg.IP, cfg.MaxAns}}
+	if cfg.IP2 != "" {
+		listeners = append(listeners, lst{cfg.IP2, cfg.MaxAns2})
+	}
+	mainAddr, mainMax, mainIP := addr, cfg.MaxAns, cfg.IP
+	for _, l := range listeners {
+		_, port, _ := net.SplitHostPort(mainAddr)
+		addr = net.JoinHostPort(l.ip, port)
+		cfg.MaxAns, cfg.IP = l.max, l.ip
+		for _, t := range []uint16{dns.TypeA, dns.TypeAAAA} {
+			for _, tcp := range []bool{false, true} {
+				q := harness.MakeQuery("wrr.example.com.", t, 91)
+				compare(q, tcp, fmt.Sprintf("listener %s max %d", l.ip, l.max))
+				got, _, err := c20Exchange(addr, tcp, q.Copy())
+				want := l.max
+				if want > 6 {
+					want = 6
+				}
+				if err == nil && len(got.Answer) != want {
+					fail("listener %s (max-answer %d, tcp=%v): wrr.example.com type %d answered with %d records", l.ip, l.max, tcp, t, len(got.Answer))
+				}
+				sum.Counts["per_listener_max_answer_checks"]++
+			}
+		}
+	}
+	addr, cfg.MaxAns, cfg.IP = mainAddr, mainMax, mainIP
 	// whoami domain
 	for _, t := range []uint16{dns.TypeTXT, dns.TypeA} {
 		q := harness.MakeQuery(c20WhoamiDomain, t, 77)
@@ -389,7 +432,7 @@ func oneLine(m *dns.Msg) string {
 }
 
 func runC20(r *report.Run) {
-	r.SetRule("a real fbserver.Server on a loopback port (UDP+TCP) per configuration {backend x whoami domain set/unset x refuse-any on/off x max-answer 1/3/8 x 127.0.0.1/::1}, race-detector build, child process each; generated queries (names of a generated file, standard and ANY types, no EDNS / 512 / 1232 / 4096, with and without ECS) sent with a DNS client over UDP and TCP; every reply is compared canonically with the bare FBDNSDB handler on the same database, remote address and max-answer (addresses reduced to owner+type); oversized answers (40 TXT / 40 NS with glue) must come back with TC over UDP within the advertised size (actual datagram length) and complete over TCP; ANY with refusal must be exactly the synthesized HINFO; whoami-domain queries must be answered by the whoami handler; a question-less message must get a failure rcode and the server must keep answering; shutdown is performed under load. non-trivial = configuration whose exchanges include a truncated reply and a TCP reply; distinct by configuration")
+	r.SetRule("a real fbserver.Server on a loopback port (UDP+TCP) per configuration {backend x whoami domain set/unset x refuse-any on/off x max-answer 1/3/8 x 127.0.0.1/::1, plus servers bound to two addresses with different max-answer settings}, race-detector build, child process each; generated queries (names of a generated file, standard and ANY types, no EDNS / 512 / 1232 / 4096, with and without ECS) sent with a DNS client over UDP and TCP; every reply is compared canonically with the bare FBDNSDB handler on the same database, remote address and max-answer (addresses reduced to owner+type); oversized answers (40 TXT / 40 NS with glue) must come back with TC over UDP within the advertised size (actual datagram length) and complete over TCP; ANY with refusal must be exactly the synthesized HINFO; whoami-domain queries must be answered by the whoami handler; a question-less message must get a failure rcode and the server must keep answering; shutdown is performed under load. non-trivial = configuration whose exchanges include a truncated reply and a TCP reply; distinct by configuration")
 	r.Assume("loopback only; the harness picks a port free for UDP and TCP and retries on bind failure")
 	var cfgs []c20Config
 	i := 0
@@ -403,6 +446,10 @@ func runC20(r *report.Run) {
 			}
 		}
 	}
+	multi := []c20Config{
+		{Backend: "cdb", MaxAns: 1, IP: "127.0.0.1", IP2: "127.0.0.2", MaxAns2: 3},
+		{Backend: "rdb2", RefuseANY: true, MaxAns: 8, IP: "::1", IP2: "127.0.0.1", MaxAns2: 2},
+	}
 	if !r.Thorough() {
 		// quick: half of the configurations, rotated by the seed (every value of every dimension still appears)
 		var half []c20Config
@@ -413,6 +460,7 @@ func runC20(r *report.Run) {
 		}
 		cfgs = half
 	}
+	cfgs = append(cfgs, multi...) // servers bound to two addresses with different max-answer settings
 	type out struct {
 		cfg c20Config
 		res *childResult
